@@ -18,6 +18,7 @@ CONSTANTS
   Reorder = TRUE
   RecvAnywhere = FALSE
   PropsOn <- P_C01
+  ExportAll = TRUE
   Export = TRUE
 INVARIANT NoFlag
 INVARIANT ExportInv
